@@ -198,3 +198,19 @@ func vpH_C11_refuse() {
 	vpAssert(st == 0x10 || st == 0x11, "C11.refuse.unknown-user-or-undecodable-is-never-granted")
 	vpReach("C11.refuse.end")
 }
+
+// the exported authorizer handler invoked for a request that names another user: one reply
+func vpH_C07_stringy_direct() {
+	w := vpNewWorld()
+	h, err := w.ld.authorizerProvider.New(config.User{Name: "a", Scopes: []string{"s1"}, Commands: []config.Command{{Name: "*", Action: config.PERMIT}}})
+	vpAssert(err == nil, "C07.stringy.built")
+	u := vpStrN(vpInt(0, 1))
+	vpAssume(vpIsASCII(u))
+	conn := w.run(h, vpPacket(0, 2, 1, vpU32(), vpCommandRequest(u, "show", nil, false)))
+	out := conn.Out()
+	vpAssert(len(out) == 1, "C07.handlers.one-reply-per-authorization-request.direct")
+	if len(out) == 1 && len(out[0]) >= 13 && u != "a" {
+		vpAssert(out[0][12] == 0x10, "C11.direct.other-user-is-FAIL")
+	}
+	vpReach("C07.stringy.end")
+}
